@@ -22,12 +22,13 @@ Theorem C13_mono_inc : forall l i i' m, 1 <= m -> i <= i' -> alloc l i m <= allo
 Proof. exact alloc_mono_inc. Qed.
 Theorem C13_anti_mtg : forall l i m m', 1 <= m -> m <= m' -> alloc l i m' <= alloc l i m.
 Proof. exact alloc_anti_mtg. Qed.
-(* the deadline handed to the search: movetime T allots T minus the margin; clock-based go allots alloc *)
-Theorem C13_movetime : forall w a, ga_movetime a <> -1 -> in_range (ga_movetime a) ->
+(* the deadline handed to the search: movetime T allots T minus the margin, for EVERY T of the range (-1 included: "no movetime
+   argument" is a separate flag in the engine, encoded here by a value no parsed argument can take); clock-based go allots alloc *)
+Theorem C13_movetime : forall w a, in_range (ga_movetime a) ->
   allotted_ns w a = Ok ((ga_movetime a - antiflagMillis) * 1000000).
 Proof. exact allotted_movetime. Qed.
 Theorem C13_clock_deadline : forall w a,
-  ga_movetime a = -1 -> in_range (mover_left w a) -> in_range (mover_inc w a) -> 1 <= ga_mtg a ->
+  ga_movetime a = no_movetime -> in_range (mover_left w a) -> in_range (mover_inc w a) -> 1 <= ga_mtg a ->
   allotted_ns w a = Ok (1000000 * alloc (mover_left w a) (mover_inc w a) (ga_mtg a)).
 Proof. exact allotted_clock. Qed.
 (* whatever text follows `go`, an accepted command never divides by zero *)
@@ -38,7 +39,7 @@ Proof. exact millis_never_panics. Qed.
 
 (* non-vacuity: a concrete clock state meets every hypothesis and gives the expected numbers *)
 Example C13_example :
-  let a := {| ga_movetime := -1; ga_bleft := 60000; ga_wleft := 5000; ga_binc := 1000; ga_winc := 0; ga_mtg := 30; ga_depth := 40 |} in
+  let a := {| ga_movetime := no_movetime; ga_bleft := 60000; ga_wleft := 5000; ga_binc := 1000; ga_winc := 0; ga_mtg := 30; ga_depth := 40 |} in
   in_range (mover_left false a) /\ in_range (mover_inc false a) /\ 1 <= ga_mtg a /\
   millis_for_move false a = Ok 2950 /\ millis_for_move true a = Ok 116 /\ allotted_ns false a = Ok 2950000000.
 Proof. cbv [in_range BIG mover_left mover_inc ga_bleft ga_binc ga_mtg]. repeat split; try discriminate; try reflexivity. Qed.
